@@ -19,39 +19,69 @@ import (
 // not-yet-visited members through `this` must be seen by the later visits, a
 // member it deletes is visited with undefined, a member it adds is not visited.
 //
-// A mutator performs ONE mutation per JSON.parse/JSON.stringify call, at the
-// first callback invocation that satisfies its trigger, and always returns the
-// value it was given. The logic is written once over the holderOps interface
-// and driven on the model object and on the otto object.
+// A mutator performs its side effect at the first callback invocation that
+// satisfies its trigger (trigger "every": at every invocation with a key other
+// than ""), and returns — for every key other than "" — the value it was given,
+// another value (7) or undefined. The logic is written once over the holderOps
+// interface and driven on the model object and on the otto object.
 
 type holderOps interface {
-	keys() []string // own enumerable names in enumeration order
-	set(k string, fresh bool)
+	keys() []string            // own enumerable names in enumeration order
+	set(k string, what string) // what: 100 | obj ({"k":1}) | scratch ("scratch") | deep ([1,{"k":[2]}]) | cyc (c with c.self = c)
+	lock(k string)             // Object.defineProperty(o, k, {value:"frozen", writable:false, enumerable:true, configurable:false})
 	del(k string)
 	isArray() bool
 	length() int
 }
 
 type mutator struct {
-	trigger string // first: first call with a key other than ""; firstContainer: first such call whose value is an object or array
+	trigger string // first: first call with a key other than ""; firstContainer: first such call whose value is an object or array; every: every call with a key other than ""
 	op      string
+	ret     string // "" (same) | other | undef
 }
 
-func (m mutator) name() string { return m.trigger + "_" + m.op }
+func (m mutator) name() string {
+	if m.ret == "" {
+		return m.trigger + "_" + m.op
+	}
+	return m.trigger + "_" + m.op + "_" + m.ret
+}
 
-// sibling ops act on the other members of the holder; val ops act on the value
-// itself (replacer / toJSON only: the value is serialised afterwards).
+// sibling ops act on the other members of the holder; self ops on the member the
+// callback is called for; val ops act on the value itself (replacer / toJSON
+// only: the value is serialised afterwards).
 var siblingOps = []string{"setSibs", "objSibs", "delSibs", "delOne", "addSib"}
 var valueOps = []string{"valSet", "valDel", "valAdd"}
+var reviverOps = []string{"none", "setSelf", "delSelf", "lockSelf", "setSibs", "objSibs", "deepSibs", "lockSibs", "delSibs", "delOne", "addSib"}
+var everyOps = []string{"setSelf", "delSelf", "lockSelf", "setSibs", "delSibs", "lockSibs"}
 
+// allMutators: the replacer / toJSON mutators (they return what they were given).
 func allMutators() []mutator {
 	var out []mutator
 	for _, t := range []string{"first", "firstContainer"} {
 		for _, o := range siblingOps {
-			out = append(out, mutator{t, o})
+			out = append(out, mutator{t, o, ""})
 		}
 		for _, o := range valueOps {
-			out = append(out, mutator{t, o})
+			out = append(out, mutator{t, o, ""})
+		}
+	}
+	return out
+}
+
+// reviverMutators: trigger x side effect x what is returned (15.12.2 stores the
+// result back unconditionally: [[DefineOwnProperty]] of the result, or [[Delete]]
+// on undefined, both with Throw false).
+func reviverMutators() []mutator {
+	var out []mutator
+	for _, ret := range []string{"", "other", "undef"} {
+		for _, t := range []string{"first", "firstContainer"} {
+			for _, o := range reviverOps {
+				out = append(out, mutator{t, o, ret})
+			}
+		}
+		for _, o := range everyOps {
+			out = append(out, mutator{"every", o, ret})
 		}
 	}
 	return out
@@ -63,13 +93,22 @@ func mutatorByName(name string) mutator {
 			return m
 		}
 	}
+	for _, m := range reviverMutators() {
+		if m.name() == name {
+			return m
+		}
+	}
+	for _, m := range cyclicMutators() {
+		if m.name() == name {
+			return m
+		}
+	}
 	panic("unknown mutator " + name)
 }
 
 func isValueOp(op string) bool { return strings.HasPrefix(op, "val") }
 
-// applyMutation performs op. key is the name the callback was called with (its
-// own member is left alone by the sibling ops).
+// applyMutation performs op. key is the name the callback was called with.
 func applyMutation(op, key string, h holderOps) {
 	others := func() []string {
 		var out []string
@@ -84,14 +123,23 @@ func applyMutation(op, key string, h holderOps) {
 	if h.isArray() {
 		fresh = strconv.Itoa(h.length())
 	}
+	forOthers := func(what string) {
+		for _, k := range others() {
+			h.set(k, what)
+		}
+	}
 	switch op {
 	case "setSibs", "valSet":
-		for _, k := range others() {
-			h.set(k, false)
-		}
+		forOthers("100")
 	case "objSibs":
+		forOthers("obj")
+	case "deepSibs":
+		forOthers("deep")
+	case "cycSibs":
+		forOthers("cyc")
+	case "lockSibs":
 		for _, k := range others() {
-			h.set(k, true)
+			h.lock(k)
 		}
 	case "delSibs":
 		for _, k := range others() {
@@ -102,7 +150,13 @@ func applyMutation(op, key string, h holderOps) {
 			h.del(o[0])
 		}
 	case "addSib", "valAdd":
-		h.set(fresh, false)
+		h.set(fresh, "100")
+	case "setSelf":
+		h.set(key, "scratch")
+	case "delSelf":
+		h.del(key)
+	case "lockSelf":
+		h.lock(key)
 	}
 }
 
@@ -110,7 +164,7 @@ func (m mutator) fires(key string, valIsContainer bool) bool {
 	if key == "" {
 		return false
 	}
-	return m.trigger == "first" || valIsContainer
+	return m.trigger != "firstContainer" || valIsContainer
 }
 
 // --- model side
@@ -124,16 +178,29 @@ func (h modelHolder) keys() []string {
 	}
 	return out
 }
-func (h modelHolder) set(k string, fresh bool) {
-	if fresh {
+func (h modelHolder) set(k string, what string) {
+	var v rj.Value
+	switch what {
+	case "100":
+		v = rj.Num(100)
+	case "scratch":
+		v = rj.StrOf("scratch")
+	case "obj":
 		o := rj.NewObject()
-		o.AliasDelete = h.o.AliasDelete
 		o.Put(rj.K("k"), rj.Num(1))
-		h.o.Put(rj.K(k), rj.ObjV(o))
-		return
+		v = rj.ObjV(o)
+	case "deep":
+		in := rj.NewObject()
+		in.Put(rj.K("k"), rj.ObjV(rj.NewArray(rj.Num(2))))
+		v = rj.ObjV(rj.NewArray(rj.Num(1), rj.ObjV(in)))
+	case "cyc":
+		o := rj.NewObject()
+		o.Put(rj.K("self"), rj.ObjV(o))
+		v = rj.ObjV(o)
 	}
-	h.o.Put(rj.K(k), rj.Num(100))
+	h.o.Put(rj.K(k), v)
 }
+func (h modelHolder) lock(k string) { h.o.Lock(rj.K(k), rj.StrOf("frozen")) }
 func (h modelHolder) del(k string)  { h.o.Delete(rj.K(k)) }
 func (h modelHolder) isArray() bool { return h.o.Class == "Array" }
 func (h modelHolder) length() int   { return int(h.o.Len) }
@@ -153,13 +220,13 @@ func isContainerModel(v rj.Value) bool {
 func (h *hostModel) mutFn(mode string, m mutator) *rj.Obj {
 	return rj.NewFunction(func(this rj.Value, args []rj.Value) rj.Value {
 		var key, val, holder rj.Value
-		if mode == "toJSON" {
+		if thisMode(mode) {
 			key, val = arg(args, 0), this
 		} else {
 			key, val, holder = arg(args, 0), arg(args, 1), this
 		}
-		h.log = append(h.log, logEntry(mode, key, val, holder))
-		if !h.fired && m.fires(keyString(key), isContainerModel(val) || mode == "toJSON") {
+		h.log = append(h.log, logEntry(mode, key, val, holder, modelGet(holder, key)))
+		if (!h.fired || m.trigger == "every") && m.fires(keyString(key), isContainerModel(val) || mode == "toJSON") {
 			var target *rj.Obj
 			switch {
 			case isValueOp(m.op):
@@ -176,6 +243,14 @@ func (h *hostModel) mutFn(mode string, m mutator) *rj.Obj {
 				applyMutation(m.op, keyString(key), modelHolder{target})
 			}
 		}
+		if keyString(key) != "" || mode == "toJSON" {
+			switch m.ret {
+			case "other":
+				return rj.Num(7)
+			case "undef":
+				return rj.Undef
+			}
+		}
 		return val
 	})
 }
@@ -188,18 +263,25 @@ type ottoHolder struct {
 }
 
 func (h ottoHolder) keys() []string { return h.v.Object().Keys() }
-func (h ottoHolder) set(k string, fresh bool) {
-	if fresh {
-		o, err := h.d.vm.Object(`({"k":1})`)
+func (h ottoHolder) set(k string, what string) {
+	var v interface{}
+	switch what {
+	case "100":
+		v = float64(100)
+	case "scratch":
+		v = "scratch"
+	default:
+		src := map[string]string{"obj": `({"k":1})`, "deep": `([1,{"k":[2]}])`, "cyc": `(function(){var c={};c.self=c;return c})()`}[what]
+		o, err := h.d.vm.Object(src)
 		if err != nil {
 			panic(err)
 		}
-		h.v.Object().Set(k, o.Value()) //nolint:errcheck
-		return
+		v = o.Value()
 	}
-	h.v.Object().Set(k, float64(100)) //nolint:errcheck
+	h.v.Object().Set(k, v) //nolint:errcheck
 }
-func (h ottoHolder) del(k string)  { h.d.del.Call(otto.UndefinedValue(), h.v, k) } //nolint:errcheck
+func (h ottoHolder) lock(k string) { h.d.lockFn.Call(otto.UndefinedValue(), h.v, k) } //nolint:errcheck
+func (h ottoHolder) del(k string)  { h.d.del.Call(otto.UndefinedValue(), h.v, k) }    //nolint:errcheck
 func (h ottoHolder) isArray() bool { return h.v.Object().Class() == "Array" }
 func (h ottoHolder) length() int {
 	l, _ := h.v.Object().Get("length")
@@ -215,10 +297,19 @@ func (d *drv) registerMutators() {
 		panic(err)
 	}
 	d.del = res
+	res, err = d.vm.Run(`(function(o, k) { Object.defineProperty(o, k, {value: "frozen", writable: false, enumerable: true, configurable: false}) })`)
+	if err != nil {
+		panic(err)
+	}
+	d.lockFn = res
 	d.vm.Set("__target", otto.UndefinedValue()) //nolint:errcheck
 	for _, mode := range []string{"reviver", "replacer", "toJSON"} {
 		prefix := map[string]string{"reviver": "__mrv_", "replacer": "__mrp_", "toJSON": "__mtj_"}[mode]
-		for _, m := range allMutators() {
+		list := allMutators()
+		if mode == "reviver" {
+			list = append(reviverMutators(), cyclicMutators()...)
+		}
+		for _, m := range list {
 			if err := d.vm.Set(prefix+m.name(), d.mutHost(mode, m)); err != nil {
 				panic(err)
 			}
@@ -230,15 +321,15 @@ func (d *drv) mutHost(mode string, m mutator) func(call otto.FunctionCall) otto.
 	return func(call otto.FunctionCall) otto.Value {
 		var keyV, valV, holderV otto.Value
 		var holder rj.Value
-		if mode == "toJSON" {
+		if thisMode(mode) {
 			keyV, valV = call.Argument(0), call.This
 		} else {
 			keyV, valV, holderV = call.Argument(0), call.Argument(1), call.This
 			holder = fromOtto(holderV, 0)
 		}
 		key, val := fromOtto(keyV, 0), fromOtto(valV, 0)
-		d.log = append(d.log, logEntry(mode, key, val, holder))
-		if !d.fired && m.fires(keyString(key), isContainerOtto(valV) || mode == "toJSON") {
+		d.log = append(d.log, logEntry(mode, key, val, holder, ottoGet(call.This, keyV, mode)))
+		if (!d.fired || m.trigger == "every") && m.fires(keyString(key), isContainerOtto(valV) || mode == "toJSON") {
 			var target otto.Value
 			switch {
 			case isValueOp(m.op):
@@ -253,6 +344,15 @@ func (d *drv) mutHost(mode string, m mutator) func(call otto.FunctionCall) otto.
 			if target.IsObject() {
 				d.fired = true
 				applyMutation(m.op, keyString(key), ottoHolder{d, target})
+			}
+		}
+		if keyString(key) != "" || mode == "toJSON" {
+			switch m.ret {
+			case "other":
+				v, _ := otto.ToValue(float64(7))
+				return v
+			case "undef":
+				return otto.UndefinedValue()
 			}
 		}
 		return valV
@@ -331,10 +431,7 @@ func runReviveMut(r *engine.Run) {
 	d := newDrv()
 	for ti, t := range reviveMutTexts {
 		text := rj.U(t)
-		for _, m := range allMutators() {
-			if isValueOp(m.op) {
-				continue // the value of a reviver call has been walked already
-			}
+		for _, m := range reviverMutators() {
 			key := fmt.Sprintf("%d|%s", ti, m.name())
 			if !r.MineKey(key) {
 				continue
@@ -380,8 +477,8 @@ func runReviveMut(r *engine.Run) {
 			}
 			if !agree {
 				file(r, engine.Mismatch{Key: key, Input: input, Expected: exp + "   (or the same with another member order)", Observed: obs,
-					Note: "reviver " + m.name() + ": at the first call with a key other than \"\"" + map[string]string{"first": "", "firstContainer": " whose value is an object/array"}[m.trigger] +
-						" it performs " + m.op + " on its holder (this) and returns the value",
+					Note: "reviver " + m.name() + ": at " + map[string]string{"first": "the first call with a key other than \"\"", "firstContainer": "the first call with a key other than \"\" whose value is an object/array", "every": "every call with a key other than \"\""}[m.trigger] +
+						" it performs " + m.op + " on its holder (this); for keys other than \"\" it returns " + map[string]string{"": "the value it was given", "other": "7", "undef": "undefined"}[m.ret],
 					Aux: map[string]string{"op": "parse-mutating-reviver", "text": escText(text), "mutator": m.name()}})
 				if strings.HasPrefix(obs, "throw:panic") {
 					d = newDrv()
@@ -390,7 +487,7 @@ func runReviveMut(r *engine.Run) {
 		}
 	}
 	r.Bound("texts", strconv.Itoa(len(reviveMutTexts)))
-	r.Bound("mutators", "2 triggers x {setSibs, objSibs, delSibs, delOne, addSib}")
+	r.Bound("mutators", strconv.Itoa(len(reviverMutators()))+": {first, firstContainer} x {none, setSelf, delSelf, lockSelf, setSibs, objSibs, deepSibs, lockSibs, delSibs, delOne, addSib} + every x {setSelf, delSelf, lockSelf, setSibs, delSibs, lockSibs}, each x return {same value, 7, undefined}")
 }
 
 // ---------------------------------------------------------------------------
@@ -473,4 +570,13 @@ func runStringifyMut(r *engine.Run) {
 	}
 	r.Bound("descriptions", strconv.Itoa(len(nodes)))
 	r.Bound("mutators", "2 triggers x {setSibs, objSibs, delSibs, delOne, addSib, valSet, valDel, valAdd} as replacer; first-call toJSON mutating itself / its holder")
+}
+
+// cyclicMutators: revivers that make a not-yet-visited sibling cyclic. Walk then
+// never terminates by the letter of 15.12.2; an implementation must stop with an
+// exception (RangeError with a stack-depth limit configured), not die. These
+// cases run in a child process (family revive-cyclic), because on a defective
+// implementation the unbounded native recursion is a fatal Go stack overflow.
+func cyclicMutators() []mutator {
+	return []mutator{{"first", "cycSibs", ""}, {"firstContainer", "cycSibs", ""}}
 }
